@@ -7,6 +7,60 @@ import (
 
 func init() {
 	builders["C14"] = specC14
+	builders["C13"] = specC13
+}
+
+func specC13(l *Loaded, tier string, seed int64) (*Spec, error) {
+	var jobs []*Job
+	kH, kStepSmall, kG := 4, 2, 5
+	if tier == "thorough" {
+		kH, kStepSmall, kG = 5, 3, 7
+	}
+	si := strconv.Itoa
+	for _, g := range [][2]int{{2, 2}, {4, 2}, {2, 3}, {4, 3}} {
+		for op0 := 0; op0 < 6; op0++ {
+			jobs = append(jobs, &Job{Pkg: "proc/comp", Fn: "VerifC13History", Key: fmt.Sprintf("history|line%d.lines%d|k%d|op0=%d", g[0], g[1], kH, op0), Choices: []int{op0}, MaxConc: 8,
+				Params: map[string]string{"line": si(g[0]), "lines": si(g[1]), "k": si(kH), "bases": "4", "symaddr": "1"}, MaxPaths: 3_000_000,
+				Note: "k operations from the empty cache; probe addresses symbolic in [0,4*line), data symbolic"})
+		}
+	}
+	// arbitrary valid state, small geometry, symbolic addresses
+	for _, g := range [][2]int{{4, 2}, {4, 3}} {
+		for n := g[1] - 1; n <= g[1]; n++ {
+			for op0 := 0; op0 < 6; op0++ {
+				jobs = append(jobs, &Job{Pkg: "proc/comp", Fn: "VerifC13Step", Key: fmt.Sprintf("step|line%d.lines%d|n%d|k%d|op0=%d", g[0], g[1], n, kStepSmall, op0), Choices: []int{op0}, MaxConc: 8,
+					Params: map[string]string{"line": si(g[0]), "lines": si(g[1]), "n": si(n), "k": si(kStepSmall), "bases": "5", "symaddr": "1"}, MaxPaths: 3_000_000})
+			}
+		}
+	}
+	// arbitrary valid state at the geometries the variants use: 64 B / 1 KB (16 lines) and 128 B / 4 KB (32 lines)
+	kReal := 1
+	if tier == "thorough" {
+		kReal = 2
+	}
+	for _, g := range [][3]int{{64, 16, 19}, {128, 32, 37}} {
+		for n := g[1] - 1; n <= g[1]; n++ {
+			for op0 := 0; op0 < 6; op0++ {
+				jobs = append(jobs, &Job{Pkg: "proc/comp", Fn: "VerifC13Step", Key: fmt.Sprintf("step|line%d.lines%d|n%d|k%d|op0=%d", g[0], g[1], n, kReal, op0), Choices: []int{op0},
+					Params: map[string]string{"line": si(g[0]), "lines": si(g[1]), "n": si(n), "k": si(kReal), "bases": si(g[2]), "symaddr": "0"}, MaxPaths: 3_000_000,
+					Note: "one operation from an arbitrary valid state at a real geometry; every resident byte symbolic; probe addresses at line corners"})
+			}
+		}
+	}
+	jobs = append(jobs, &Job{Pkg: "proc/comp", Fn: "VerifC13SubLine", Key: "subline|128in64", Params: map[string]string{"line": "128", "sub": "64"}, Covers: []string{"end"}, MaxConc: 8},
+		&Job{Pkg: "proc/comp", Fn: "VerifC13SubLine", Key: "subline|8in4", Params: map[string]string{"line": "8", "sub": "4"}, Covers: []string{"end"}, MaxConc: 8})
+	for _, cp := range []int{1, 2, 3} {
+		for op0 := 0; op0 < 3; op0++ {
+			jobs = append(jobs, &Job{Pkg: "common/cache", Fn: "VerifC13Generic", Key: fmt.Sprintf("generic|cap%d|k%d|op0=%d", cp, kG, op0), Choices: []int{op0},
+				Params: map[string]string{"cap": si(cp), "k": si(kG), "keys": "3"}, MaxPaths: 3_000_000})
+		}
+	}
+	return &Spec{Jobs: jobs,
+		Rule:        "bounded-exhaustive operation histories from the empty cache (small geometries, symbolic probe addresses and data) plus single/double operations from an arbitrary valid state (also at the 64B/1KB and 128B/4KB geometries), each compared with an MRU-first list kept by the harness; the generic LRU against a recency list",
+		Bounds:      map[string]interface{}{"history_length": kH, "step_ops_small": kStepSmall, "step_ops_real_geometry": kReal, "geometries": "2x2,4x2,2x3,4x3 bytes x lines (history); 4x2,4x3,64x16,128x32 (step)", "generic": map[string]int{"capacity_max": 3, "keys": 3, "k": kG}},
+		Assumptions: []string{"the caller never inserts a line that overlaps a resident line (overlap is a machine-level matter, C05)", "Write only touches bytes of one resident line (it panics otherwise by contract)", "at the real geometries the arbitrary state has distinct aligned bases in a fixed scrambled recency order and probe addresses are line corners"},
+		Outside:     []string{"histories longer than k from the empty cache", "unaligned or overlapping line bases", "String()"},
+	}, nil
 }
 
 func specC14(l *Loaded, tier string, seed int64) (*Spec, error) {
@@ -56,7 +110,7 @@ func specC14(l *Loaded, tier string, seed int64) (*Spec, error) {
 		jobs = append(jobs, &Job{Pkg: "proc/comp", Fn: "VerifC14Broadcast", Key: fmt.Sprintf("broadcast|n%d|k%d", n, kBr), Params: map[string]string{"k": strconv.Itoa(kBr), "listeners": strconv.Itoa(n)}, Covers: []string{"end"}, MaxPaths: 2_000_000})
 	}
 	return &Spec{Jobs: jobs,
-		Rule: "bounded-exhaustive operation histories (the executor forks on every vp.Choice) over the real BufferedBus/SimpleBus/Queue/Broadcast with symbolic payloads and symbolic Pick/Exists predicates; each delivered item is compared by the solver with the harness's list of undelivered items",
+		Rule:   "bounded-exhaustive operation histories (the executor forks on every vp.Choice) over the real BufferedBus/SimpleBus/Queue/Broadcast with symbolic payloads and symbolic Pick/Exists predicates; each delivered item is compared by the solver with the harness's list of undelivered items",
 		Bounds: map[string]interface{}{"arbitrary_state_then_k_ops": kStep, "history_length": map[string]int{"buffered": kB, "simple": kS, "queue": kQ, "broadcast": kBr}, "capacities(out,in)": caps, "payloads": "all int32 values"},
 		Assumptions: []string{"producer contract: Add (and Revert) only while CanAdd() reports room", "cycles are non-decreasing", "a reverted item is the next one delivered after the items that are already visible on the output side (Revert/DeleteLast have no caller in the repository; weakest reading of the sentence)",
 			"visibility is read through PendingRead(): the visible items are a prefix of the delivery order"},
